@@ -1,7 +1,9 @@
 //! `hn append FILE`: lines "<old text>\t<new text>" (new = old + suffix).  Emulates typing: reparse(old,
 //! append = false); the tick resets the status; reparse(new, append = true).  Prints the status the
 //! MultiPattern reports (1 = Update: only current matches are rescored, 2 = Rescore) and, for every
-//! haystack of the pool, whether the old and the new pattern match it.
+//! haystack of the pool, whether the old and the new pattern match it; then, after a tab, the hex (UTF-8)
+//! of every DERIVED haystack (the new text itself, the needles of the new atoms joined by spaces, and
+//! that string upper-cased) that the new pattern matches and the old one does not.
 use nucleo::pattern::{CaseMatching, MultiPattern, Normalization};
 use nucleo::{Config, Matcher, Utf32String};
 use std::io::{BufRead, Write};
@@ -38,6 +40,33 @@ pub fn run(file: &str) {
                 (true, true) => '3',
             });
         }
-        writeln!(out, "{} {}", status, bits).unwrap();
+        let joined: String = mp
+            .column_pattern(0)
+            .atoms
+            .iter()
+            .filter(|a| !a.negative)
+            .map(|a| a.needle_text().to_string())
+            .collect::<Vec<_>>()
+            .join(" ");
+        let upper: String = joined
+            .chars()
+            .map(|c| {
+                let mut u = c.to_uppercase();
+                match (u.next(), u.next()) {
+                    (Some(x), None) => x,
+                    _ => c,
+                }
+            })
+            .collect();
+        let mut dynbad = Vec::new();
+        for d in [new.to_string(), joined, upper] {
+            let cols = [Utf32String::from(d.as_str())];
+            let o = old_pat.score(&cols, &mut matcher).is_some();
+            let n = mp.score(&cols, &mut matcher).is_some();
+            if n && !o {
+                dynbad.push(d.bytes().map(|b| format!("{:02x}", b)).collect::<String>());
+            }
+        }
+        writeln!(out, "{} {}\t{}", status, bits, dynbad.join(",")).unwrap();
     }
 }
